@@ -130,6 +130,24 @@ fn seg(marker: u8, payload: &[u8]) -> Vec<u8> {
     v
 }
 
+/// `jpeg` with a foreign APP11 segment of 17..=27 content bytes inserted after APP0
+pub fn jpeg_short_app11(r: &mut Rng) -> Vec<u8> {
+    let v = jpeg(r);
+    insert_short_app11(&v, r)
+}
+
+/// insert a foreign APP11 segment of 17..=27 content bytes after the APP0 segment of a JPEG
+pub fn insert_short_app11(v: &[u8], r: &mut Rng) -> Vec<u8> {
+    let n = r.usize(17, 27);
+    let mut p = b"foreign-app11".to_vec();
+    p.extend(noff(r, n - p.len()));
+    let at = 20.min(v.len()); // SOI + APP0 of the model
+    let mut o = v[..at].to_vec();
+    o.extend(seg(0xEB, &p));
+    o.extend_from_slice(&v[at..]);
+    o
+}
+
 /// a small XMP packet (no provenance reference in it)
 fn xmp_packet(r: &mut Rng, format: &str) -> Vec<u8> {
     let title = r.ident(1, 12);
@@ -148,8 +166,14 @@ pub fn jpeg(r: &mut Rng) -> Vec<u8> {
     }
     // optional extra APPn / COM
     for _ in 0..r.below(3) {
-        let m = *r.pick(&[0xE2u8, 0xEC, 0xED, 0xFE]);
-        let n = r.usize(1, 24);
+        // (APP11 is not reserved for C2PA: a foreign APP11 segment of any length is legal)
+        let m = *r.pick(&[0xE2u8, 0xEC, 0xED, 0xFE, 0xEB, 0xEB]);
+        let mut n = r.usize(1, 36);
+        if m == 0xEB && (12..=22).contains(&n) {
+            // a foreign APP11 segment of 17-27 bytes makes every JPEG write path of the SDK answer
+            // InvalidAsset (a listed finding, see jpeg_short_app11); kept out of the common model
+            n += 11;
+        }
         let mut p = format!("seg{:02x}", m).into_bytes();
         p.extend(noff(r, n));
         v.extend(seg(m, &p));
